@@ -107,6 +107,23 @@ def build(shape, b: R.Builder):
     return p_in, None, d
 
 
+def gathered_elements(shape):
+    """sg / sg2: the elements the gather step must collect, in order (input of /C)."""
+    c = R.compute
+    n, m = shape["n"], shape["m"]
+    if shape["kind"] == "sg2":
+        base = c("/A", "0", {"x": "input0"})
+        elems = [f"{base}#{i}" for i in range(n)]
+    else:
+        elems = [f"input{i}" for i in range(n)]
+    outs = []
+    for i, v in enumerate(elems):
+        for s in range(m):
+            v = c(f"/B{s}", f"0.{i}", {"x": v})
+        outs.append(v)
+    return outs
+
+
 def reference(shape):
     """Sequential evaluation of the same functions: expected [(tag, content)] on the output port."""
     k = shape["kind"]
@@ -117,18 +134,7 @@ def reference(shape):
             v = c(f"/A{i}", "0", {"x": v})
         return [("0", v)]
     if k in ("sg", "sg2"):
-        n, m = shape["n"], shape["m"]
-        if k == "sg2":
-            base = c("/A", "0", {"x": "input0"})
-            elems = [f"{base}#{i}" for i in range(n)]
-        else:
-            elems = [f"input{i}" for i in range(n)]
-        outs = []
-        for i, v in enumerate(elems):
-            for s in range(m):
-                v = c(f"/B{s}", f"0.{i}", {"x": v})
-            outs.append(v)
-        return [("0", c("/C", "0", {"x": outs}))]
+        return [("0", c("/C", "0", {"x": gathered_elements(shape)}))]
     if k == "fan":
         a = c("/A", "0", {"x": "input0"})
         return [("0", c("/D", "0", {"x": c("/B", "0", {"x": a}), "y": c("/C", "0", {"x": a}), "z": c("/E", "0", {"x": a})}))]
